@@ -576,4 +576,408 @@ Section Ren.
       rewrite k_settle_fuel, k_settle. reflexivity.
     Qed.
   End K.
+
+  (** ** the watcher of an old record: a silent step *)
+  Definition old_ok (ocb : list cb) : Prop := forall c, In c ocb -> old_id (cb_id c) = true.
+  Definition mark_done (i : nat) (ocb : list cb) : list cb := upd_nth i (fun c => c <| cb_watch := WDone |>) ocb.
+
+  Lemma old_ok_mark i ocb : old_ok ocb -> old_ok (mark_done i ocb).
+  Proof.
+    intros H c Ic. apply in_upd_nth in Ic as [Ic|(x & N & ->)]; [apply H; exact Ic|].
+    apply (H x). eapply nth_error_In; eauto.
+  Qed.
+
+  Lemma mark_done_length i ocb : length (mark_done i ocb) = length ocb.
+  Proof. apply upd_nth_length. Qed.
+
+  Lemma mark_done_ops i ocb : map cb_op (mark_done i ocb) = map cb_op ocb.
+  Proof. apply map_upd_nth_same. reflexivity. Qed.
+
+  Lemma embk_old_watch_raw ocb s i c : old_ok ocb -> nth_error ocb i = Some c ->
+    step_raw (embk ocb s) (LRelCbWatch i) =
+    match cb_watch c with WParked => Some (embk (mark_done i ocb) s, []) | _ => None end.
+  Proof.
+    intros Ho N. cbn [step_raw].
+    assert (N' : nth_error (cbs (embk ocb s)) i = Some c) by (cbn [cbs embk]; apply nth_error_app_old; exact N).
+    rewrite N'. destruct (cb_watch c); try reflexivity.
+    set (s1 := embk ocb s <| cbs ::= upd_nth i (fun c0 => c0 <| cb_watch := WDone |>) |>).
+    assert (A : assoc (cb_id c) (calls s1) = None).
+    { apply (assoc_old (Nat.add (length ocb))). apply Ho. eapply nth_error_In; eauto. }
+    rewrite A. f_equal. f_equal. unfold s1. apply state_ext; try reflexivity.
+    - cbn. unfold sh_call. rewrite mark_done_length. reflexivity.
+    - cbn. apply upd_nth_app_l. eapply nth_error_some_lt; eauto.
+  Qed.
+
+  Lemma embk_old_watch ocb s i c : old_ok ocb -> nth_error ocb i = Some c -> settle1 s = None ->
+    step (embk ocb s) (LRelCbWatch i) =
+    match crash s, cb_watch c with None, WParked => Some (embk (mark_done i ocb) s, []) | _, _ => None end.
+  Proof.
+    intros Ho N St. unfold step. change (crash (embk ocb s)) with (crash s). destruct (crash s) eqn:Cr; [reflexivity|].
+    rewrite (embk_old_watch_raw ocb s i c Ho N). destruct (cb_watch c); try reflexivity.
+    change (crash (embk (mark_done i ocb) s)) with (crash s). rewrite Cr.
+    rewrite k_settle_fuel. pose proof (k_settle (mark_done i ocb) (settle_fuel s) s []) as K. cbn [map] in K. rewrite K.
+    rewrite (SrvC09b.settle_none _ s [] St). reflexivity.
+  Qed.
+
 End Ren.
+
+(** * Invariants of the run of a server with AllowPush, fed shaped records *)
+Definition fed_ok (s : state) : Prop := (forall f, In f (ch_in s) -> shaped_feed f = true) /\ rd_shaped s = true.
+Definition pinv (s : state) : Prop := c_push s = true /\ 1 <= call_id s /\ fed_ok s.
+Definition lab_shaped (l : label) : bool := match l with LFeed f => shaped_feed f | _ => true end.
+
+Definition pvw (s : state) := (c_push s, call_id s, ch_in s, rd s).
+Definition evo (s s' : state) : Prop :=
+  c_push s' = c_push s /\ call_id s <= call_id s' /\
+  (forall f, In f (ch_in s') -> In f (ch_in s) \/ f = FErr SCClosing) /\
+  (rd s' = rd s \/ forall f, rd s' <> RHold f).
+
+Lemma evo_pvw s s' : pvw s' = pvw s -> evo s s'.
+Proof. unfold pvw. intros [= A B C D]. unfold evo. rewrite A, B, C, D. repeat split; auto. Qed.
+
+Lemma evo_trans a b c : evo a b -> evo b c -> evo a c.
+Proof.
+  intros (A1 & A2 & A3 & A4) (B1 & B2 & B3 & B4). split; [congruence|]. split; [lia|]. split.
+  - intros f I. destruct (B3 f I) as [I'|E]; auto.
+  - destruct B4 as [E|N]; [|right; exact N]. destruct A4 as [E'|N']; [left; congruence|right]. rewrite E. exact N'.
+Qed.
+
+Lemma evo_pinv s s' : evo s s' -> pinv s -> pinv s'.
+Proof.
+  intros (A1 & A2 & A3 & A4) (P1 & P2 & P3 & P4). split; [congruence|]. split; [lia|]. split.
+  - intros f I. destruct (A3 f I) as [I'|E]; [auto|subst f; reflexivity].
+  - unfold rd_shaped in *. destruct A4 as [E|N]; [rewrite E; exact P4|].
+    destruct (rd s') as [| |f|] eqn:R; auto. exfalso. apply (N f). reflexivity.
+Qed.
+
+Lemma cancel_task_pvw k s : pvw (cancel_task k s) = pvw s.
+Proof. unfold cancel_task. destruct (nth_error (tasks s) k) as [t|]; auto. destruct (t_st t); reflexivity. Qed.
+
+Lemma grant_pvw : forall fuel s acc, pvw (fst (grant fuel s acc)) = pvw s.
+Proof.
+  induction fuel as [|f IH]; cbn [grant]; intros s acc; [reflexivity|].
+  destruct (sem_wait s) as [|k r]; [reflexivity|]. destruct (sem_free s) as [|fr]; [reflexivity|].
+  destruct (nth_error (tasks s) k) as [t|]; [|reflexivity]. destruct (t_builtin t); rewrite IH; reflexivity.
+Qed.
+
+Lemma fold_cancel_pvw : forall (l : list (bytes * nat)) s,
+  pvw (fold_left (fun st p => cancel_task (snd p) st) l s) = pvw s.
+Proof. induction l as [|p l IH]; cbn; intros s; auto. rewrite IH. apply cancel_task_pvw. Qed.
+
+Lemma release_ids_pvw : forall ts s, pvw (release_ids ts s) = pvw s.
+Proof.
+  induction ts as [|t r IH]; cbn [release_ids]; intros s; auto. rewrite IH.
+  destruct (t_hasctx t && negb (is_note t)); auto. destruct (assoc (t_id t) (used s)) as [n|]; auto.
+  change (pvw (cancel_task n s) = pvw s). apply cancel_task_pvw.
+Qed.
+
+Lemma dequeue_pvw s : pvw (dequeue s) = pvw s.
+Proof. unfold dequeue. destruct (inq s) as [|[b ms] q]; [destruct (running s)|]; reflexivity. Qed.
+
+Lemma complete_cb_pvw i r s : pvw (fst (complete_cb i r s)) = pvw s.
+Proof. unfold complete_cb. destruct (nth_error (cbs s) i); reflexivity. Qed.
+
+Lemma filter_batch_pvw : forall ms s keep acc, pvw (fst (fst (filter_batch ms s keep acc))) = pvw s.
+Proof.
+  induction ms as [|m r IH]; intros s keep acc; cbn [filter_batch]; [reflexivity|].
+  destruct (is_req_or_notif m); [apply IH|].
+  destruct (assoc (fix_id (j_id m)) (calls s)) as [i|].
+  - match goal with |- context [complete_cb i ?v s] =>
+      pose proof (complete_cb_pvw i v s) as P; destruct (complete_cb i v s) as [s1 os1] end.
+    cbn [fst] in P. rewrite IH. exact P.
+  - destruct (c_push s && is_nil (j_method m) && has_reply_fields m); apply IH.
+Qed.
+
+Lemma stop_locked_evo c s : evo s (fst (stop_locked c s)) /\ rd (fst (stop_locked c s)) = rd s.
+Proof.
+  rewrite stop_locked_stages. destruct (negb (running s)); cbn [fst]; [split; [apply evo_pvw|]; reflexivity|].
+  set (s3 := stage3 (stage2 (stage1 s))).
+  assert (P3 : pvw s3 = pvw s).
+  { unfold s3, stage3, stage2. destruct (work_closed (stage1 s)); reflexivity. }
+  pose proof (fold_cancel_pvw (used s3) s3) as P4. fold (stage4 s3) in P4. rewrite P3 in P4.
+  unfold pvw in P4. injection P4 as Q1 Q2 Q3 Q4. set (s4 := stage4 s3) in *. clearbody s4. clear P3. clearbody s3.
+  unfold stage6, stage5. match goal with |- context [if ?b then _ else _] => destruct b end; (split; [|exact Q4]).
+  - unfold evo. cbn. rewrite Q1, Q2, Q3, Q4. repeat split; auto.
+    intros f I. apply in_app_or in I as [I|[<-|[]]]; auto.
+  - apply evo_pvw. unfold pvw. cbn. congruence.
+Qed.
+
+Lemma read_cs_evo f s : evo (s <| rd := RIdle |>) (fst (read_cs f s)) /\ forall g, rd (fst (read_cs f s)) <> RHold g.
+Proof.
+  destruct f as [i|i|sc]; unfold read_cs.
+  1,2: destruct (negb (running s));
+       [split; [unfold evo; cbn; repeat split; auto; right; intros ?; discriminate|cbn; intros ?; discriminate]|];
+       destruct i as [|b ms]; [split; [apply evo_pvw; reflexivity|cbn; intros ?; discriminate]|];
+       destruct ms as [|m ms]; [split; [apply evo_pvw; reflexivity|cbn; intros ?; discriminate]|];
+       pose proof (filter_batch_pvw (m :: ms) s [] []) as P;
+       destruct (filter_batch (m :: ms) s [] []) as [[s1 keep] os1]; cbn [fst] in P;
+       unfold pvw in P; injection P as Q1 Q2 Q3 Q4;
+       destruct keep as [|k0 kr];
+       [split; [apply evo_pvw; unfold pvw; cbn; congruence|cbn; intros ?; discriminate]|]; cbv zeta;
+       match goal with |- context [if ?b then _ else _] => destruct b end;
+       (split; [apply evo_pvw; unfold pvw; cbn; congruence|cbn; intros ?; discriminate]).
+  destruct (stop_locked_evo sc s) as [(E1 & E2 & E3 & E4) Er]. destruct (stop_locked sc s) as [s2 os2]. cbn [fst] in *.
+  split; [|cbn; intros ?; discriminate]. unfold evo. cbn. repeat split; auto. right. intros ?; discriminate.
+Qed.
+
+Lemma evo_rd_upd s s' : evo (s <| rd := RIdle |>) s' -> (forall g, rd s' <> RHold g) -> evo s s'.
+Proof. intros (A1 & A2 & A3 & _) N. repeat split; auto. Qed.
+
+Lemma settle1_pinv s s' os : settle1 s = Some (s', os) -> pinv s -> pinv s'.
+Proof.
+  intros H P. apply settle1_inv in H. destruct H.
+  - destruct P as (P1 & P2 & P3 & P4). repeat split; auto.
+    + cbn. intros g I. apply P3. rewrite H0. right. exact I.
+    + unfold rd_shaped. cbn. apply P3. rewrite H0. left. reflexivity.
+  - eapply evo_pinv; [apply evo_pvw, dequeue_pvw|exact P].
+  - eapply evo_pinv; [apply evo_pvw; reflexivity|exact P].
+  - eapply evo_pinv; [apply evo_pvw; reflexivity|exact P].
+  - eapply evo_pinv; [apply evo_pvw; reflexivity|exact P].
+  - eapply evo_pinv; [apply evo_pvw; reflexivity|exact P].
+  - eapply evo_pinv; [apply evo_pvw; reflexivity|exact P].
+Qed.
+
+Lemma settle_pinv : forall fuel s acc, pinv s -> pinv (fst (settle fuel s acc)).
+Proof.
+  induction fuel as [|f IH]; intros s acc P; cbn [settle]; [exact P|].
+  destruct (settle1 s) as [[s1 os1]|] eqn:E; [|exact P]. apply IH. eapply settle1_pinv; eauto.
+Qed.
+
+Lemma step_raw_pinv s l s' os : step_raw s l = Some (s', os) -> lab_shaped l = true -> pinv s -> pinv s'.
+Proof.
+  intros H Ls P.
+  assert (EV : forall x, evo s x -> pinv x) by (intros x E; eapply evo_pinv; eauto).
+  assert (PV : forall x, pvw x = pvw s -> pinv x) by (intros x E; apply EV, evo_pvw, E).
+  destruct l; cbn [step_raw] in H.
+  - (* LStart *)
+    destruct (negb (running s) && (wg s =? 0)); [|discriminate]. injection H as <- _. apply EV.
+    unfold evo. cbn. repeat split; auto; [intros f []|right; discriminate].
+  - (* LFeed *)
+    injection H as <- _. destruct P as (P1 & P2 & P3 & P4). repeat split; auto.
+    cbn. intros g I. apply in_app_or in I as [I|[<-|[]]]; auto.
+  - injection H as <- _. apply PV. reflexivity.
+  - destruct (find_idx _ 0 (tasks s)) as [k|]; [|discriminate]. destruct (nth_error (tasks s) k); [|discriminate].
+    injection H as <- _. apply PV. reflexivity.
+  - injection H as <- _. apply PV. reflexivity.
+  - injection H as <- _. apply PV. reflexivity.
+  - destruct (c_push s); injection H as <- _; apply PV; reflexivity.
+  - injection H as <- _. apply PV. reflexivity.
+  - destruct (find_idx _ 0 (cbs s)); injection H as <- _; apply PV; reflexivity.
+  - (* LRelRead *)
+    destruct (rd s) as [| |f|] eqn:R; try discriminate. injection H as H.
+    destruct (read_cs_evo f s) as [E N]. rewrite H in E, N. cbn [fst] in E, N. apply EV. apply evo_rd_upd; auto.
+  - destruct (dp s); try discriminate. injection H as <- _. apply PV, dequeue_pvw.
+  - destruct (dp s); try discriminate. injection H as <- _. apply PV. reflexivity.
+  - (* LRelAcquire *)
+    destruct (nth_error (tasks s) k) as [t|]; [|discriminate]. destruct (t_st t); try discriminate.
+    destruct (negb (unit_running s t)); [discriminate|].
+    destruct (t_cancelled t); [injection H as <- _; apply PV; reflexivity|].
+    destruct (sem_free s) as [|fr]; [injection H as <- _; apply PV; reflexivity|].
+    destruct (sem_wait s) as [|j r]; [|injection H as <- _; apply PV; reflexivity].
+    destruct (t_builtin t); injection H as <- _; apply PV; reflexivity.
+  - (* LRelHandled *)
+    destruct (nth_error (tasks s) k) as [t|]; [|discriminate]. destruct (t_st t) as [| | | |o|]; try discriminate.
+    match type of H with context [grant ?f ?x ?a] =>
+      pose proof (grant_pvw f x a) as G; destruct (grant f x a) as [s2 os2] end.
+    cbn [fst] in G.
+    destruct (is_note t); [destruct (nbar s2)|]; injection H as <- _; apply PV;
+      (transitivity (pvw s2); [reflexivity|rewrite G; reflexivity]).
+  - (* LRelDeliver *)
+    destruct (nth_error (units s) u) as [un|]; [|discriminate]. destruct (u_st un); try discriminate.
+    pose proof (release_ids_pvw (unit_tasks s u) s) as G.
+    destruct (negb (u_chok un)); injection H as <- _; apply PV;
+      (transitivity (pvw (release_ids (unit_tasks s u) s)); [reflexivity|exact G]).
+  - (* LRelStop *)
+    destruct (find_op n (ops s)) as [[| |]|]; try discriminate.
+    destruct (stop_locked_evo SCStop (s <| ops ::= del_op n |>)) as [E _].
+    destruct (stop_locked SCStop (s <| ops ::= del_op n |>)) as [s2 os2]. cbn [fst] in E. injection H as <- _.
+    apply EV. eapply evo_trans; [|exact E]. apply evo_pvw. reflexivity.
+  - (* LRelCancel *)
+    destruct (find_op n (ops s)) as [[| |]|]; try discriminate. injection H as <- _.
+    destruct (assoc id _) as [owner|]; apply PV; [|reflexivity].
+    exact (cancel_task_pvw owner (s <| ops ::= del_op n |>)).
+  - (* LRelPush *)
+    destruct (find_op n (ops s)) as [[| |n' w m p]|]; try discriminate.
+    destruct (negb (running (s <| ops ::= del_op n |>))); [injection H as <- _; apply PV; reflexivity|].
+    destruct w; [|injection H as <- _; apply PV; reflexivity].
+    destruct (send_fail (s <| ops ::= del_op n |>)); injection H as <- _; apply EV;
+      unfold evo; cbn; repeat split; auto.
+  - (* LRelCbWatch *)
+    destruct (nth_error (cbs s) c) as [cb0|]; [|discriminate]. destruct (cb_watch cb0); try discriminate.
+    set (s1 := s <| cbs ::= upd_nth c (fun c0 => c0 <| cb_watch := WDone |>) |>) in *.
+    destruct (assoc (cb_id cb0) (calls s1)) as [j|]; [|injection H as <- _; apply PV; reflexivity].
+    destruct (cb_slot cb0); [injection H as <- _; apply PV; reflexivity|].
+    destruct (j =? c); [|injection H as <- _; apply PV; reflexivity].
+    destruct (match cb_ctx cb0 with Some WDeadline => _ | _ => _ end) as [code msg].
+    injection H as H. pose proof (complete_cb_pvw c (CErr code msg) s1) as G. rewrite H in G. cbn [fst] in G.
+    apply PV. rewrite G. reflexivity.
+Qed.
+
+Lemma step_pinv s l s' os : step s l = Some (s', os) -> lab_shaped l = true -> pinv s -> pinv s'.
+Proof.
+  intros H Ls P. apply step_decompose in H as (_ & s1 & os1 & Raw & [(_ & -> & _)|(_ & Hs)]).
+  - eapply step_raw_pinv; eauto.
+  - pose proof (settle_pinv (settle_fuel s1) s1 os1 (step_raw_pinv _ _ _ _ Raw Ls P)) as Q. rewrite Hs in Q. exact Q.
+Qed.
+
+Lemma step_settled s l s' os : step s l = Some (s', os) -> crash s' = None -> settle1 s' = None.
+Proof.
+  intros H Cr. apply step_decompose in H as (_ & s1 & os1 & _ & [(C1 & -> & _)|(_ & Hs)]); [congruence|].
+  pose proof (settle_settled (settle_fuel s1) s1 os1 (mu_fuel s1)) as S. rewrite Hs in S. exact S.
+Qed.
+
+(** * The full embedding: tasks, units, counters ([emb], SrvRestartSim) and callbacks ([embk]) *)
+Lemma run_length : forall tr x x' oss, run x tr = Some (x', oss) -> length oss = length tr.
+Proof.
+  induction tr as [|l r IH]; cbn [run]; intros x x' oss H; [injection H as _ <-; reflexivity|].
+  destruct (step x l) as [[x1 os]|]; [|discriminate]. destruct (run x1 r) as [[x2 oss2]|] eqn:E; [|discriminate].
+  injection H as _ <-. cbn. f_equal. eapply IH; eauto.
+Qed.
+
+Section EmbC.
+  Variable ot : list task.
+  Variable ou : list unit_.
+  Variables ds dc dk : nat.
+  Hypothesis Hot : forall t, In t ot -> finished t = true /\ t_unit t < length ou.
+  Hypothesis Hou : forall u, In u ou -> u_st u = UFinished.
+
+  Definition embc (ocb : list cb) (x : state) : state := emb ot ou ds dc (embk dk ocb x).
+  Definition rs_labelc (nc : nat) (l : label) : label :=
+    match l with
+    | LFeed f => LFeed (ren_feed dk f)
+    | LRelCbWatch i => LRelCbWatch (nc + i)
+    | x => sh_label ot ou x
+    end.
+  (* (ii) and (iii): what the environment of the fresh run may do; oops = the operation numbers of the old records *)
+  Definition lab_ok (oops : list nat) (l : label) : bool :=
+    match l with
+    | LFeed f => shaped_feed f
+    | LCbCtxEnd n _ => forallb (fun o => negb (o =? n)) oops
+    | _ => true
+    end.
+
+  Lemma rs_labelc_eq ocb l : rs_labelc (length ocb) l = sh_label ot ou (renk_label dk ocb l).
+  Proof. destruct l; reflexivity. Qed.
+
+  Lemma lab_ok_parts ocb l : lab_ok (map cb_op ocb) l = true -> ops_fresh ocb l = true /\ lab_shaped l = true.
+  Proof.
+    destruct l; cbn [lab_ok ops_fresh lab_shaped]; auto. intros H. split; auto.
+    rewrite <- H. clear H. induction ocb as [|c r IH]; cbn [forallb map]; auto. rewrite IH. reflexivity.
+  Qed.
+
+  Definition embcp (ocb : list cb) (r : state * list obs) : state * list obs :=
+    (embc ocb (fst r), map (ren_obs dk) (snd r)).
+
+  Theorem embc_step ocb x l : old_ok dk ocb -> pinv x -> lab_ok (map cb_op ocb) l = true ->
+    step (embc ocb x) (rs_labelc (length ocb) l) = option_map (embcp ocb) (step x l).
+  Proof.
+    intros Ho (Cp & Ci & _ & Rs) Lo. destruct (lab_ok_parts ocb l Lo) as [Of _].
+    rewrite rs_labelc_eq. unfold embc. rewrite (emb_step ot ou ds dc Hot Hou).
+    rewrite (k_step dk ocb Ho x l Cp Ci Rs Of). destruct (step x l) as [[x' os]|]; reflexivity.
+  Qed.
+
+  (** ** runs, forward *)
+  Theorem embc_run_fwd ocb : old_ok dk ocb -> forall tr x x' oss, pinv x ->
+    forallb (lab_ok (map cb_op ocb)) tr = true -> run x tr = Some (x', oss) ->
+    run (embc ocb x) (map (rs_labelc (length ocb)) tr) = Some (embc ocb x', map (map (ren_obs dk)) oss).
+  Proof.
+    intros Ho. induction tr as [|l r IH]; cbn [run map forallb]; intros x x' oss P L H.
+    - injection H as <- <-. reflexivity.
+    - apply andb_true_iff in L as [L1 L2]. rewrite (embc_step ocb x l Ho P L1).
+      destruct (step x l) as [[x1 os]|] eqn:E; [|discriminate]. cbn [option_map embcp fst snd].
+      destruct (run x1 r) as [[x2 oss2]|] eqn:E2; [|discriminate]. injection H as <- <-.
+      assert (P1 : pinv x1) by (eapply step_pinv; eauto; apply (lab_ok_parts ocb l L1)).
+      rewrite (IH _ _ _ P1 L2 E2). reflexivity.
+  Qed.
+
+  (** ** runs, backward *)
+  (* the label of the restarted run addresses the watcher of an old record *)
+  Definition old_watch (nc : nat) (l : label) : bool := match l with LRelCbWatch i => i <? nc | _ => false end.
+  Definition unlabelc (nc : nat) (l : label) : label :=
+    match l with
+    | LFeed f => LFeed (map_feed (unren dk) f)
+    | LRelCbWatch i => LRelCbWatch (i - nc)
+    | x => unsh_label ot ou x
+    end.
+  (* what the environment of the restarted run may do: as above, and no reply bears the id of an old callback *)
+  Definition lab_ok' (oops : list nat) (l : label) : bool :=
+    lab_ok oops l && match l with LFeed f => no_old_feed dk f | _ => true end.
+
+  Lemma relabel nc oops l' : old_label ot ou l' = false -> old_watch nc l' = false -> lab_ok' oops l' = true ->
+    rs_labelc nc (unlabelc nc l') = l' /\ lab_ok oops (unlabelc nc l') = true.
+  Proof.
+    unfold lab_ok'. intros O W L. apply andb_true_iff in L as [L1 L2].
+    destruct l'; cbn [unlabelc unsh_label rs_labelc sh_label lab_ok] in *; auto.
+    - split; [f_equal; apply ren_unren_feed; exact L2|apply shaped_unren_feed; exact L1].
+    - split; auto. f_equal. apply Nat.ltb_ge in O. lia.
+    - split; auto. f_equal. apply Nat.ltb_ge in O. lia.
+    - split; auto. f_equal. apply Nat.ltb_ge in O. lia.
+    - split; auto. f_equal. apply Nat.ltb_ge in W. lia.
+  Qed.
+
+  (* the fresh run that corresponds to a restarted run: silent steps of old watchers removed, labels un-shifted and
+     un-renamed; its windows, renamed, interleaved with the empty windows of the silent steps *)
+  Fixpoint strip (nc : nat) (tr' : list label) : list label :=
+    match tr' with
+    | [] => []
+    | l' :: r => if old_watch nc l' then strip nc r else unlabelc nc l' :: strip nc r
+    end.
+  Fixpoint weave (nc : nat) (tr' : list label) (ossf : list (list obs)) : list (list obs) :=
+    match tr' with
+    | [] => []
+    | l' :: r => if old_watch nc l' then [] :: weave nc r ossf
+                 else match ossf with o :: q => map (ren_obs dk) o :: weave nc r q | [] => [] end
+    end.
+
+  Lemma concat_weave nc : forall tr' ossf, length ossf = length (strip nc tr') ->
+    concat (weave nc tr' ossf) = map (ren_obs dk) (concat ossf).
+  Proof.
+    induction tr' as [|l' r IH]; cbn [strip weave]; intros ossf L.
+    - destruct ossf; [reflexivity|discriminate].
+    - destruct (old_watch nc l'); [cbn [concat app]; apply IH; exact L|].
+      destruct ossf as [|o q]; [discriminate|]. cbn [concat]. rewrite map_app. f_equal. apply IH.
+      cbn in L. lia.
+  Qed.
+
+  Theorem embc_run_bwd : forall tr' ocb x sr oss, old_ok dk ocb -> pinv x -> (crash x = None -> settle1 x = None) ->
+    forallb (lab_ok' (map cb_op ocb)) tr' = true -> run (embc ocb x) tr' = Some (sr, oss) ->
+    exists ocb' x' ossf,
+      run x (strip (length ocb) tr') = Some (x', ossf) /\ sr = embc ocb' x' /\ oss = weave (length ocb) tr' ossf /\
+      forallb (lab_ok (map cb_op ocb)) (strip (length ocb) tr') = true /\
+      old_ok dk ocb' /\ length ocb' = length ocb /\ map cb_op ocb' = map cb_op ocb /\ map cb_id ocb' = map cb_id ocb.
+  Proof.
+    induction tr' as [|l' r IH]; cbn [run strip weave forallb]; intros ocb x sr oss Ho P St L H.
+    - injection H as <- <-. exists ocb, x, []. repeat split; auto.
+    - apply andb_true_iff in L as [L1 L2].
+      destruct (step (embc ocb x) l') as [[s1 os]|] eqn:E; [|discriminate].
+      destruct (run s1 r) as [[s2 oss2]|] eqn:E2; [|discriminate]. injection H as <- <-.
+      destruct (old_label ot ou l') eqn:O.
+      { unfold embc in E. rewrite (emb_old_label_disabled ot ou ds dc Hot Hou _ l' O) in E. discriminate. }
+      destruct (old_watch (length ocb) l') eqn:W.
+      + (* the watcher of an old record *)
+        destruct l'; try discriminate W. cbn [old_watch] in W. apply Nat.ltb_lt in W.
+        destruct (nth_error ocb c) as [c0|] eqn:N; [|apply nth_error_None in N; lia].
+        unfold embc in E. change (LRelCbWatch c) with (sh_label ot ou (LRelCbWatch c)) in E.
+        rewrite (emb_step ot ou ds dc Hot Hou) in E.
+        destruct (crash x) eqn:Cr.
+        { unfold step in E. change (crash (embk dk ocb x)) with (crash x) in E. rewrite Cr in E. discriminate. }
+        rewrite (embk_old_watch dk ocb x c c0 Ho N (St eq_refl)), Cr in E.
+        destruct (cb_watch c0); try discriminate. cbn [option_map embp fst snd] in E. injection E as <- <-.
+        fold (embc (mark_done c ocb) x) in E2.
+        destruct (IH (mark_done c ocb) x s2 oss2) as (ocb' & x' & ossf & R1 & R2 & R3 & R4 & R5 & R6 & R7 & R8); auto.
+        { apply old_ok_mark; auto. }
+        { rewrite mark_done_ops. exact L2. }
+        rewrite mark_done_length, mark_done_ops in *.
+        exists ocb', x', ossf. repeat split; auto; try congruence.
+        rewrite R8. unfold mark_done. apply map_upd_nth_same. reflexivity.
+      + (* a label of the fresh run *)
+        destruct (relabel (length ocb) (map cb_op ocb) l' O W L1) as [Rl Lk].
+        rewrite <- Rl in E. rewrite (embc_step ocb x _ Ho P Lk) in E.
+        destruct (step x (unlabelc (length ocb) l')) as [[x1 os0]|] eqn:E0; [|discriminate].
+        cbn [option_map embcp fst snd] in E. injection E as <- <-.
+        assert (P1 : pinv x1) by (eapply step_pinv; eauto; apply (lab_ok_parts ocb _ Lk)).
+        destruct (IH ocb x1 s2 oss2 Ho P1 (step_settled _ _ _ _ E0) L2 E2) as
+          (ocb' & x' & ossf & R1 & R2 & R3 & R4 & R5 & R6 & R7 & R8).
+        exists ocb', x', (os0 :: ossf). cbn [run forallb]. rewrite E0, R1, Lk, R4. repeat split; auto. rewrite R3. reflexivity.
+  Qed.
+End EmbC.
